@@ -32,6 +32,23 @@ CLAIMED["C09"] = dict(
    technique="Lean 4 `decide` over regenerated tables + generic case analysis; differential correspondence; end-to-end hook oracle",
    ref="4 C09")
 
+CLAIMED["C13"] = dict(
+   text="Lean theorems about the exact-arithmetic reading `detectExact` of detect_alphabet (letter sets and the four probabilities regenerated from the C text): "
+        "P1 all residues in ACGTUN (either case) => nucleotide; P2 at least a quarter protein-only letters => protein; P3 invariance under permutation of the sequences. "
+        "Tie: bit-exact unit correspondence of detect_alphabet vs the double-precision model on histograms around both premises and the decision boundary; "
+        "exact-vs-double agreement measured; end-to-end biotype, --type acceptance and MSF header on plain / heavily gapped / shuffled+renamed presentations.",
+   note="A-float: the C code computes in doubles with libm log; theorems are over rationals (cross-multiplied naturals). Trusted: translator T2 (letter strings, probabilities).",
+   technique="Lean 4 product-of-powers inequality over regenerated constants; differential correspondence; end-to-end oracle",
+   ref="4 C13")
+CLAIMED["C14"] = dict(
+   text="Lean `decide +kernel` theorems over the executed alphabet tables: codes are invariant under case change for the three alphabets kalign_run uses, U and T share a code "
+        "in the nucleotide alphabet, every letter has a code < L; the detection letter sets are closed under case change and treat T and U alike; hence detection and code "
+        "conversion are invariant under such respellings (C14_detect_respell_invariant, C14_convert_respell_invariant). Tie: unit correspondence of convert_msa_to_internal; "
+        "end-to-end gap-pattern comparison of respelled inputs, all types, both APIs.",
+   note="That later stages read residues only through codes is structural in the model and observed end to end. T<->U applies to inputs kalign classifies as nucleotide.",
+   technique="Lean 4 kernel-checked table facts + list-map lemma; differential correspondence; end-to-end oracle",
+   ref="4 C14")
+
 PENDING = {}
 
 def main():
